@@ -1146,6 +1146,20 @@ XObject::notEquals(
 }
 
 
+// A result tree fragment is compared like a node-set that contains
+// just its root node, and a node-set is compared with a boolean by
+// converting it to a boolean.  This returns true if the operands are
+// a boolean and a result tree fragment, in either order.
+inline bool
+isBooleanAndResultTreeFrag(
+            XObject::eObjectType    theLHSType,
+            XObject::eObjectType    theRHSType)
+{
+    return (theLHSType == XObject::eTypeBoolean && theRHSType == XObject::eTypeResultTreeFrag) ||
+           (theLHSType == XObject::eTypeResultTreeFrag && theRHSType == XObject::eTypeBoolean);
+}
+
+
 
 bool
 XObject::lessThan(
@@ -1165,6 +1179,12 @@ XObject::lessThan(
     else if (theRHS.getType() == eTypeNodeSet)
     {
         return greaterThanNodeSet(theRHS, *this, theLHSType, executionContext);
+    }
+    else if (isBooleanAndResultTreeFrag(theLHSType, theRHS.getType()) == true)
+    {
+        return DoubleSupport::lessThan(
+                    boolean(executionContext) == true ? 1.0 : 0.0,
+                    theRHS.boolean(executionContext) == true ? 1.0 : 0.0);
     }
     else
     {
@@ -1193,6 +1213,12 @@ XObject::lessThanOrEquals(
     {
         return greaterThanOrEqualNodeSet(theRHS, *this, theLHSType, executionContext);
     }
+    else if (isBooleanAndResultTreeFrag(theLHSType, theRHS.getType()) == true)
+    {
+        return DoubleSupport::lessThanOrEqual(
+                    boolean(executionContext) == true ? 1.0 : 0.0,
+                    theRHS.boolean(executionContext) == true ? 1.0 : 0.0);
+    }
     else
     {
         return DoubleSupport::lessThanOrEqual(num(executionContext), theRHS.num(executionContext));
@@ -1220,6 +1246,12 @@ XObject::greaterThan(
     {
         return lessThanNodeSet(theRHS, *this, theLHSType, executionContext);
     }
+    else if (isBooleanAndResultTreeFrag(theLHSType, theRHS.getType()) == true)
+    {
+        return DoubleSupport::greaterThan(
+                    boolean(executionContext) == true ? 1.0 : 0.0,
+                    theRHS.boolean(executionContext) == true ? 1.0 : 0.0);
+    }
     else
     {
         return DoubleSupport::greaterThan(num(executionContext), theRHS.num(executionContext));
@@ -1246,6 +1278,12 @@ XObject::greaterThanOrEquals(
     else if (theRHS.getType() == eTypeNodeSet)
     {
         return lessThanOrEqualNodeSet(theRHS, *this, theLHSType, executionContext);
+    }
+    else if (isBooleanAndResultTreeFrag(theLHSType, theRHS.getType()) == true)
+    {
+        return DoubleSupport::greaterThanOrEqual(
+                    boolean(executionContext) == true ? 1.0 : 0.0,
+                    theRHS.boolean(executionContext) == true ? 1.0 : 0.0);
     }
     else
     {
